@@ -18,4 +18,16 @@ TEXT["C13"] = {
             "checker on all byte strings of length <=2 (<=3 thorough), small-alphabet sweeps and mutated nested items.",
     "note": COMMON_NOTE + "A Go panic and an error are both 'not accepted' (the repo's own tests require panics on "
             "under-populated arrays/maps); Go stack depth of the recursion is not modelled."}
+TEXT["C14"] = {
+    "text": "Theorems: the model of mice.Encode (index arithmetic, both drafts, empty-payload cases) equals the draft's "
+            "recursive definition for every payload and record size >= 1, and decoding its output returns the payload for "
+            "every sequence of Read buffer sizes; SHA-256 is a Section variable. Model (with a Gallina SHA-256/base64, "
+            "themselves validated against Go's) compared with the real encoder/decoder every run.",
+    "note": COMMON_NOTE + "The hash is abstract in the theorems; io.ReadFull/binary.Read modelled by contract."}
+TEXT["C15"] = {
+    "text": "Theorem: for ANY stream, digest and sequence of Read sizes the model decoder outputs only a prefix of the "
+            "unique record list the digest commits to, complete on clean EOF, or else an explicit SHA-256 collision is "
+            "constructed; zero/oversized record sizes refused. Correspondence: honest streams x every bit flip, truncation, "
+            "extension, swaps, size edits; property-level judge (prefix of authenticated data + error class).",
+    "note": COMMON_NOTE + "Collision-resistance of SHA-256 is not claimed: theorems deliver collisions as disjuncts."}
 NOT_YET = {}
